@@ -3,22 +3,25 @@ import z3, itertools
 from ..core import *
 from .. import models as M, netbuild as NB, replay
 from ..harness import JobCtx
+from . import loader as LD
+from .loader import job_loader, job_planning
 
 PROPERTY = 'C17'
 MIR = [('rapid_time', 'on'), ('model', 'on')]
 CRATES = ['rapid_time', 'model']
 ASSUMPTIONS = [
     'input enters as already-parsed values (serde deserialisation and date-string parsing are outside the claim)',
-    'dead-head matrix diagonal is zero; all times lie on day 0000-01-01 (+ carry into the next day through the real DateTime + Duration)',
+    'pairwise rules / enumerations: dead-head matrix diagonal is zero; all times lie on day 0400-01-01 (+ carry into the next day through the real DateTime + Duration)',
+    'loader jobs: the JsonInput is an already-deserialised value of concrete shape (2 types, 2-3 locations, 2 routes / 3 route segments listed out of order, 3 departure segments, 0-1 slot, depots absent or 1-2 given, dead-head index list a permutation of the location list) with all numbers, optional fields and instants symbolic; DateTime::new maps each date token to a symbolic instant; Network::new is intercepted and its arguments compared with a reference written from the README (Network::new itself: network_new jobs); the planning horizon enters create_locations as a variable constrained by the relation the planning-horizon jobs prove of determine_planning_days (assume/guarantee)',
     'hash-map iteration order is not relied upon (maps are abstract finite maps; BTreeMaps are ordered by the real derived Ord executed from MIR)',
 ]
 BOUNDS = {
-    'quick': 'pairwise rules: 2 locations, 2 service trips + 1 maintenance slot + 1 depot + overflow depot, every ordered node pair, times < 4096 s, durations 1..1024 s, dead-heads/shunting symbolic; enumerations: 2 service trips + 1 slot, 1 type',
-    'thorough': 'pairwise rules: 3 locations, times over a full day (< 86400 s, arrival may carry into the next day); enumerations: up to 3 service trips + 1 slot, 2 types, 2 depots; Network::new on the same shapes',
+    'quick': 'loader: 3 shapes (default depots / given depots / no maintenance), passengers and seated <= 2^30, other numbers up to u32::MAX / 2^62; pairwise rules: 2 locations, 2 service trips + 1 maintenance slot + 1 depot + overflow depot, every ordered node pair, times < 4096 s, durations 1..1024 s, dead-heads/shunting symbolic; enumerations: 2 service trips + 1 slot, 1 type',
+    'thorough': 'loader: 4 shapes (adds 3 locations), times over a full day; pairwise rules: 3 locations, times over a full day (< 86400 s, arrival may carry into the next day); enumerations: up to 3 service trips + 1 slot, 2 types, 2 depots; Network::new on the same shapes',
 }
-OUTSIDE = 'serde/JSON parsing, date strings; instances larger than the bounds; create_* loader functions beyond what Network::new receives'
-REQUIRED_COVERS = {'quick': ['tie:end==start reachable', 'limit:segment-only', 'limit:both', 'limit:type-only', 'limit:neither'],
-                   'thorough': ['tie:end==start reachable', 'limit:segment-only', 'limit:both', 'limit:type-only', 'limit:neither']}
+OUTSIDE = 'serde/JSON parsing and date-string parsing (DateTime::new is a table from tokens to symbolic instants); values beyond u32 (the loader truncates with `as`); vehicle capacities/seats symbolic (concrete, pairwise distinct in the loader jobs); instances larger than the bounds'
+_COV = ['tie:end==start reachable', 'limit:segment-only', 'limit:both', 'limit:type-only', 'limit:neither', 'default depots', 'zero passengers', 'dead-head beyond horizon']
+REQUIRED_COVERS = {'quick': _COV, 'thorough': _COV}
 
 def spec_for(tier, trips=2, maint=1, level='basic', types=None, depots=None):
     kw = dict(nloc=2, trips=[dict(vt=0) for _ in range(trips)], maint=maint, level=level, types=types, depots=depots)
@@ -41,6 +44,8 @@ def jobs(tier, seed):
             js.append(dict(name='preds_succs3_%d' % target, func='job_preds_succs', kwargs=dict(tier=tier, target=target, trips=3, maint=1)))
     js.append(dict(name='network_new', func='job_network_new', kwargs=dict(tier=tier, trips=2, maint=1)))
     js.append(dict(name='network_new seats<capacity', func='job_network_new', kwargs=dict(tier=tier, trips=2, maint=0, caps=(7, 3))))
+    for v in LD.VARIANTS[tier]: js.append(dict(name='planning horizon %s' % v, func='job_planning', kwargs=dict(tier=tier, variant=v)))
+    for v in LD.VARIANTS[tier]: js.append(dict(name='loader %s' % v, func='job_loader', kwargs=dict(tier=tier, variant=v)))
     if tier == 'thorough':
         js.append(dict(name='network_new_2types', func='job_network_new', kwargs=dict(tier=tier, trips=3, maint=1, two_types=True)))
     return js
@@ -310,6 +315,7 @@ def job_network_new(name, tier, trips, maint, two_types=False, caps=(5, 7)):
 
 # ------------------------------------------------------------------------------------------------ native confirmation
 def confirm(c):
+    if c.get('loader'): return LD.confirm(c)
     sc = c.get('scenario')
     if not sc: return False, 'no scenario'
     exp = c['expect']; out = []
@@ -325,6 +331,7 @@ def confirm(c):
         if not bad: return False, '; '.join(out)
     return True, '; '.join(out)
 def validate(w):
+    if w.get('loader'): return LD.validate(w)
     obs = replay.run(w['scenario'], 'dev')
     return (obs == w['symbolic']), 'native %s / symbolic %s' % (json_short(obs), json_short(w['symbolic']))
 def json_short(x):
